@@ -27,12 +27,12 @@ Proof. exact domain_expand_balanced. Qed.
 Print Assumptions C09_domain_struct_balanced.
 
 (* end to end: whatever program the compile model accepts, the emitted document is well formed *)
-Theorem C09_accepted_wf_pil : forall ctr prefix d body c ctr', forallb stmt_ok body = true ->
+Theorem C09_accepted_wf_pil : forall ctr prefix d body c ctr',
   compile_comp ctr prefix d body = OK (c, ctr') -> wf_pil (emit_comp c) = true.
 Proof. exact compile_emit_wf_pil. Qed.
 Print Assumptions C09_accepted_wf_pil.
 
-(* the hypothesis on identifiers is a decidable syntactic condition: not starting with _Anon *)
+(* the reserved identifiers the compiler rejects are exactly those starting with _Anon *)
 Theorem C09_reserved_names : forall n, is_anon n = true <-> exists t, n = String.append "_Anon" t.
 Proof. exact is_anon_spec. Qed.
 Print Assumptions C09_reserved_names.
